@@ -1,5 +1,5 @@
-(* C14: level-triggered dispatch, the meaning of the ghost fields, and the
-   counter-examples to the kernel-in-sync clause without the strict discipline. *)
+(* C14: level-triggered dispatch, the meaning of the ghost fields, and the scripts
+   that refuted the kernel-in-sync clause before src/unix/poll.c was repaired. *)
 From UV Require Import Lib.Base Model.IoWatch Proofs.IoWatchProofs Proofs.IoWatchProofsN Proofs.IoWatchProofsK.
 Local Open Scope Z_scope.
 
@@ -53,13 +53,7 @@ Qed.
 (* ---- what the ghost fields record ------------------------------------------------------ *)
 Lemma ghost_after_stop s i : NI s -> (i < length (hs s))%nat ->
   g_start (hget (poll_stop s i) i) = None.
-Proof.
-  intros Hn Hl. unfold poll_stop.
-  set (s2 := hupd (io_stop s i ALLEV) i (fun h => h_set_ghost (h_set_active h false) (g_req h) None)).
-  destruct (invalidate_same s2 (h_fd (hget s2 i))) as [Sh _]. cbv zeta in Sh.
-  unfold hget at 1. rewrite Sh. fold (hget s2 i). unfold s2. rewrite hget_hupd_same; [reflexivity|].
-  rewrite io_stop_length. auto.
-Qed.
+Proof. intros Hn Hl. apply (NI_poll_stop s i Hn Hl). Qed.
 
 Lemma ghost_after_start s i m s' : NI s -> (i < length (hs s))%nat ->
   poll_start s i m = (s', 0) -> mzero m = false ->
@@ -73,7 +67,8 @@ Proof.
   destruct (io_start_same (poll_stop s i) i (mand m ALLEV)) as [[_ [Sn _]] _]. rewrite Sn, H5. auto.
 Qed.
 
-(* ---- counter-examples: the strict discipline is needed ------------------------------- *)
+(* ---- probes of the state at the k-th epoll_pwait; the scripts that were counter-examples
+   before the repairs 4af929c / 2caaa44 of src/unix/poll.c ---------------------------------- *)
 Fixpoint nth_pwait (evs : list event) (k : nat) : option state :=
   match evs with
   | [] => None
@@ -128,13 +123,11 @@ Definition UVM (r w : bool) : mask := mkM r false w false false false.
 Definition script_shared : list op :=
   [OOpen 0; OInit 0; OInit 0; OStart 1 (UVM true false); ORun; OClose 0; ORun].
 
-Theorem sync_refuted_shared : exists fdo pw beh os rng,
-  ~ Forall EK (snd (run fdo pw beh (sinit rng false) os)).
-Proof.
-  exists (fun _ => 5), (fun _ => []), (fun _ => []), script_shared, true.
-  intros H. pose proof (probe_watched_sync _ 1 5 None ONLY_IN H) as X.
-  assert (None = Some ONLY_IN) by (apply X; vm_compute; reflexivity). discriminate.
-Qed.
+(* repaired: the started handle keeps its kernel registration *)
+Example shared_in_sync :
+  probe_watched (snd (run (fun _ => 5) (fun _ => []) (fun _ => []) (sinit true false) script_shared)) 1 5
+  = Some (Some ONLY_IN, ONLY_IN).
+Proof. vm_compute. reflexivity. Qed.
 
 (* POLLERR auto-stop (UV_EBADF) leaves the registration; the user keeps a dup,
    closes the descriptor and then the handle inside the callback *)
@@ -145,10 +138,8 @@ Definition pw_ebadf (k : nat) : list (Z * mask) :=
   match k with O => [(5, mkM false false true true false false)] | _ => [] end.
 Definition fdo_ebadf (k : nat) : Z := match k with O => 5 | _ => 6 end.
 
-Theorem sync_refuted_ebadf : exists fdo pw beh os rng,
-  ~ Forall EK (snd (run fdo pw beh (sinit rng false) os)).
-Proof.
-  exists fdo_ebadf, pw_ebadf, beh_ebadf, script_ebadf, false.
-  intros H. pose proof (probe_entry_sync _ 1 5 0%nat ONLY_OUT None H) as X.
-  assert (None = Some 0%nat) by (apply X; vm_compute; reflexivity). discriminate.
-Qed.
+(* repaired: nothing is left in the kernel under the closed number *)
+Example ebadf_in_sync :
+  probe_entry (snd (run fdo_ebadf pw_ebadf beh_ebadf (sinit false false) script_ebadf)) 1 5 0%nat
+  = Some (None, None).
+Proof. vm_compute. reflexivity. Qed.
